@@ -17,6 +17,7 @@ open AwsVerif.Log AwsVerif.Gen.Log AwsVerif.Proofs.C14
 
 
 
+
 /-- **Line shape.**  When the buffer can hold the whole line and its terminator, the formatter
 succeeds, `amount_written` is the length of `prefix ++ message ++ "\n"`, those bytes are exactly that
 line (whatever the buffer held before), a NUL follows it inside the buffer, and with NUL-free inputs
@@ -76,18 +77,28 @@ theorem c14_noalloc_line (stack : Bytes) (level : Nat) (subject msg ts tid : Byt
             (MAXIMUM_NO_ALLOC_LOG_LINE_SIZE - 2) ++ [10]) :=
   Thm.c14_noalloc_line stack level subject msg ts tid hstack hl hts0 hts hsz
 
+/-- **A registered subject whose name is NULL**: the default formatter sizes the line without a subject length (its
+`strlen` is guarded) and the line is complete and simply has no `[subject]` field — prefix `[LEVEL] [time] [tid] ` then
+` - ` and the message. -/
+theorem c14_default_line_null_subject (level : Nat) (msg ts tid : Bytes) (hl : level < AWS_LL_COUNT)
+    (hts0 : ts ≠ []) (hts : ts.length ≤ AWS_DATE_TIME_STR_MAX_LEN) (htid : tid.length < AWS_THREAD_ID_T_REPR_BUFSZ)
+    (hsz : msg.length < 2147483000) :
+    defaultFormatNull level msg ts tid =
+      .ok (fullLine { total := defaultTotal msg [], level := level, subject := none, msg := msg, ts := ts, tid := tid }) :=
+  Thm.c14_default_line_null_subject level msg ts tid hl hts0 hts htid hsz
+
 /-! ## Level gate and pipeline -/
 
 /-- **Gate.**  A call produces a line iff its level is ≤ the logger's current level (given a valid level
 and a channel that accepts). -/
 theorem c14_gate (p : Pipe) (c : Call) (hch : p.chan = .foreground) (hl : c.level < AWS_LL_COUNT) (hts0 : c.ts ≠ [])
     (hts : c.ts.length ≤ AWS_DATE_TIME_STR_MAX_LEN) (htid : c.tid.length < AWS_THREAD_ID_T_REPR_BUFSZ)
-    (hsz : c.msg.length + c.subject.length < 2147483000) :
+    (hsz : c.msg.length + c.subject.length < 2147483000) (hnn : c.subjectNull = false) :
     (c.level ≤ p.level →
         (logf p c).written = p.written ++
           [fullLine { total := defaultTotal c.msg c.subject, level := c.level, subject := some c.subject, msg := c.msg, ts := c.ts, tid := c.tid }]) ∧
     (¬ c.level ≤ p.level → logf p c = p) :=
-  Thm.c14_gate p c hch hl hts0 hts htid hsz
+  Thm.c14_gate p c hch hl hts0 hts htid hsz hnn
 
 /-- every line handed to a channel is destroyed exactly once by the time the call returns, also when the
 send fails (and then nothing reaches the writer) -/
@@ -109,7 +120,7 @@ theorem c14_gate_after_store (p : Pipe) (l : Nat) (h : List Op) (hch : p.chan = 
 `write` succeeds or fails for this line, the call reports success, the line counts as handed to the writer, and it
 is destroyed exactly once (by the channel — the pipeline must not, and does not, destroy it again). -/
 theorem c14_writer_failure (p : Pipe) (c : Call) (line : Bytes) (hch : p.chan = .foreground)
-    (hf : defaultFormat c.level c.subject c.msg c.ts c.tid = .ok line) :
+    (hf : callFormat c = .ok line) :
     (pipelineLog p c).2 = true ∧
     (pipelineLog p c).1.written = p.written ++ [line] ∧
     (pipelineLog p c).1.destroyed = p.destroyed ++ [line] ∧
